@@ -248,6 +248,13 @@ func (eng *Engine) computeEffects() {
 					}
 					callee := c.StaticCallee()
 					if callee == nil {
+						// a call through a func-typed struct field: the functions ever stored into that field
+						if impls := eng.fieldCallTargets(c); len(impls) > 0 {
+							for _, f := range impls {
+								calls[fn] = append(calls[fn], callRef{callee: f})
+							}
+							continue
+						}
 						eff.Unknown = true
 						continue
 					}
@@ -313,6 +320,36 @@ func (eng *Engine) computeEffects() {
 			}
 		}
 	}
+}
+
+// fieldCallTargets: for a call through a func-typed field of a named struct, the functions stored into that field anywhere
+// in the module (nil when the call has another shape or some store is not a named function).
+func (eng *Engine) fieldCallTargets(c *ssa.CallCommon) []*ssa.Function {
+	u, ok := c.Value.(*ssa.UnOp)
+	if !ok || u.Op != token.MUL {
+		return nil
+	}
+	fa, ok := u.X.(*ssa.FieldAddr)
+	if !ok {
+		return nil
+	}
+	pt, ok := fa.X.Type().Underlying().(*types.Pointer)
+	if !ok {
+		return nil
+	}
+	nt, ok := pt.Elem().(*types.Named)
+	if !ok || nt.Obj().Pkg() == nil {
+		return nil
+	}
+	stt, ok := nt.Underlying().(*types.Struct)
+	if !ok {
+		return nil
+	}
+	impls, err := eng.fieldImplsByKey(nt.Obj().Pkg().Path() + "." + nt.Obj().Name() + "." + stt.Field(fa.Field).Name())
+	if err != nil {
+		return nil
+	}
+	return impls
 }
 
 // implementers returns the module's concrete methods that may be the target of an interface method call (CHA).
